@@ -1104,8 +1104,9 @@ impl FromStr for Tag {
             }
             8 => {
                 // ggggeeee
-                let (g, e) = s.split_at(4);
-                let (num_g, _) = parse_tag_part(g)?;
+                // (`parse_tag_part` checks the character boundary,
+                // `str::split_at` would panic on a multi-byte character)
+                let (num_g, e) = parse_tag_part(s)?;
                 let (num_e, _) = parse_tag_part(e)?;
 
                 Ok(Tag(num_g, num_e))
